@@ -201,7 +201,7 @@ def run(ctx):
                             "PyUnicode_DecodeFSDefaultAndSize", "PyBytes_FromStringAndSize",
                             "PyUnicode_FromStringAndSize", "snprintf"):
                     # the bound must not exceed the field width
-                    bound_ok = _bounded(args, i, width, cn)
+                    bound_ok = _bounded(args, i, width, cn, _single_defs(fn))
                     if bound_ok:
                         ctx.ok("C17.R2", key, sample=f"{cn}({mname}, <= {width})")
                     else:
@@ -501,13 +501,49 @@ def kids_type(member):
     return (ks[0].get("type") or {}).get("qualType", "")
 
 
-def _bounded(args, i, width, cn):
+def _single_defs(fn):
+    """{local: defining expression} for locals of fn that are written exactly once
+    (initialiser or one `=`), never through `&local`, ++/-- or compound assignment."""
+    defs, bad = {}, set()
+    for n in C.walk(fn):
+        k = n.get("kind")
+        if k == "VarDecl" and C.kids(n) and C.kids(n)[-1].get("kind") not in (None,):
+            init = [x for x in C.kids(n) if x.get("kind") not in ("FullComment",)]
+            if init:
+                nm = n.get("name")
+                if nm in defs:
+                    bad.add(nm)
+                defs[nm] = init[-1]
+        elif k == "BinaryOperator" and n.get("opcode") == "=":
+            l, r = C.kids(n)
+            ln = C.strip_all(l)
+            if ln.get("kind") == "DeclRefExpr":
+                nm = (ln.get("referencedDecl") or {}).get("name")
+                if nm in defs:
+                    bad.add(nm)
+                defs[nm] = r
+        elif k == "CompoundAssignOperator" or (k == "UnaryOperator"
+                                               and n.get("opcode") in ("++", "--", "&")):
+            t_ = C.strip_all(C.kids(n)[0]) if C.kids(n) else {}
+            if t_.get("kind") == "DeclRefExpr":
+                bad.add((t_.get("referencedDecl") or {}).get("name"))
+    return {k_: v_ for k_, v_ in defs.items() if k_ not in bad}
+
+
+def _bounded(args, i, width, cn, defs=None):
     """Is some other argument a bound that cannot exceed the field: sizeof of
-    the very same member, strnlen(member, sizeof(member)), or a literal <= width."""
+    the very same member, strnlen(member, sizeof(member)), or a literal <= width
+    (also through a local written once: n = strnlen(f, sizeof(f)); use(f, n))."""
     me = C.strip_all(args[i]).get("name")
+    defs = defs or {}
     for j, a in enumerate(args):
         if j == i:
             continue
+        core0 = C.strip_all(a)
+        if core0.get("kind") == "DeclRefExpr":
+            nm0 = (core0.get("referencedDecl") or {}).get("name")
+            if nm0 in defs:
+                a = defs[nm0]
         so = _sizeof_target(a)
         if so and so[0] == me and so[1] <= 0:
             return True
@@ -515,7 +551,7 @@ def _bounded(args, i, width, cn):
         if core.get("kind") == "CallExpr" and C.callee(core) == "strnlen":
             ia = C.call_args(core)
             if ia and C.strip_all(ia[0]).get("name") == me:
-                return _bounded(ia, 0, width, "strnlen")
+                return _bounded(ia, 0, width, "strnlen", defs)
         v = C.int_value(a)
         if v is not None and 0 < v <= width:
             return True
